@@ -3,6 +3,7 @@
 //! case:   ( mode pattern rec mdc thread treqs )   |   ( 3 chars ) -> cls of those chars only
 //!   mode   1 = construct and encode, 2 = construct only (absurd widths), 5 = switch the process's TZ, then as 1,
 //!          4 = as 1 but in a forked child, after the parent has encoded the pid formatters,
+//!          8 = as 1, but encoded from a thread-local destructor while the thread exits (after one encode on the live thread),
 //!          7 = as 1 into a sink that takes 300 bytes and then fails for good: res = ( "err" ( event* ) ) on Err
 //!   rec    ( level msg target module? file? line? )
 //!   mdc    ( (key value)* )
@@ -242,9 +243,12 @@ fn body(case: &Val) -> Val {
     let module = opt_cps(&rec[3]);
     let file = opt_cps(&rec[4]);
     let line = rec[5].l().first().map(|v| v.n() as u32);
-    for kv in c[3].l() {
-        let kv = kv.l();
-        log_mdc::insert(cps(&kv[0]), cps(&kv[1]));
+    let in_dtor = IN_TLS_DTOR.load(std::sync::atomic::Ordering::SeqCst);
+    if !in_dtor {
+        for kv in c[3].l() {
+            let kv = kv.l();
+            log_mdc::insert(cps(&kv[0]), cps(&kv[1]));
+        }
     }
     let treqs: Vec<String> = c[5].l().iter().map(cps).collect();
 
@@ -370,7 +374,9 @@ fn body(case: &Val) -> Val {
             break (before, res, after);
         }
     };
-    log_mdc::clear();
+    if !in_dtor {
+        log_mdc::clear();
+    }
     let times = before
         .iter()
         .zip(after.iter())
@@ -450,9 +456,67 @@ fn forked(case: &Val) -> Val {
     }
 }
 
+/// set while `body` runs inside a thread-local destructor (mode 8): log_mdc's own thread-local is gone there
+static IN_TLS_DTOR: std::sync::atomic::AtomicBool = std::sync::atomic::AtomicBool::new(false);
+
+/// mode 8: the record is encoded while its thread EXITS - from the destructor of a thread-local value of the
+/// application - after the same pattern was encoded once on the live thread.  Even turns: the application's
+/// thread-local was registered before the thread's first encode (so whatever the crate keeps per thread is
+/// destroyed before it), odd turns: after.  Result as mode 1 (that of the encode in the destructor).
+fn at_thread_exit(case: &Val) -> Val {
+    use std::cell::RefCell;
+    use std::sync::mpsc;
+    struct Probe {
+        case: Val,
+        tx: mpsc::Sender<Val>,
+    }
+    impl Drop for Probe {
+        fn drop(&mut self) {
+            IN_TLS_DTOR.store(true, std::sync::atomic::Ordering::SeqCst);
+            let v = match std::panic::catch_unwind(std::panic::AssertUnwindSafe(|| body(&self.case))) {
+                Ok(v) => v,
+                Err(_) => Val::panic(),
+            };
+            IN_TLS_DTOR.store(false, std::sync::atomic::Ordering::SeqCst);
+            let _ = self.tx.send(v);
+        }
+    }
+    thread_local!(static PROBE: RefCell<Option<Probe>> = RefCell::new(None));
+    static TURN: std::sync::atomic::AtomicUsize = std::sync::atomic::AtomicUsize::new(0);
+    let early = TURN.fetch_add(1, std::sync::atomic::Ordering::SeqCst) % 2 == 0;
+    let mut items = case.l().to_vec();
+    items[0] = Val::N(1);
+    let case1 = Val::L(items);
+    let (tx, rx) = mpsc::channel();
+    let mut b = std::thread::Builder::new();
+    if let Some(n) = opt_cps(&case.l()[4]) {
+        b = b.name(n);
+    }
+    let h = b
+        .spawn(move || {
+            let probe = Probe { case: case1.clone(), tx };
+            if early {
+                PROBE.with(|p| *p.borrow_mut() = Some(probe));
+                let _ = std::panic::catch_unwind(std::panic::AssertUnwindSafe(|| body(&case1)));
+            } else {
+                let _ = std::panic::catch_unwind(std::panic::AssertUnwindSafe(|| body(&case1)));
+                PROBE.with(|p| *p.borrow_mut() = Some(probe));
+            }
+        })
+        .expect("spawn");
+    let _ = h.join();
+    match rx.recv_timeout(std::time::Duration::from_secs(10)) {
+        Ok(v) => v,
+        Err(_) => Val::text("no-result-from-the-destructor"),
+    }
+}
+
 fn run(case: &Val) -> Val {
     if case.l()[0].n() == 3 {
         return body(case);
+    }
+    if case.l()[0].n() == 8 {
+        return at_thread_exit(case);
     }
     if case.l()[0].n() == 4 {
         return forked(case);
